@@ -34,6 +34,19 @@ Reading.
 * the vocabulary of the whole-pipeline theorems (Model/ScoreMidiSpec.lean: routedTo, trackKS, trackTS, trackTempo,
   scoreRows, importedRows, writtenCells) is printed by the driver (`expspec`, `rt`) and compared with what the real
   exporter wrote and the real readers read, separately from the model of the exporter itself.
+* "reading that file (directly or through the score importer)": the file may travel as a path, as a file-like object
+  or as the in-memory `mido.MidiFile` that `save_score_midi(score, None)` returns, and both readers accept such an
+  object.  Reading is an observation: what a read returns does not depend on how the file travels nor on how many
+  times, in which order and by which reader (score importer in any of the six modes, performance reader, `mf.save`,
+  iterating the messages) the same object was used before, and a read leaves the object's messages as they were.
+  The `hist` cases export ONCE to an object, use it several times and demand of every read what is demanded of the
+  first (the score's sounding notes; the same result as the path-based call), and of the object that it still equals
+  the written file (theorems history_roundtrip, history_reads_independent, history_object_unchanged).  The notes are
+  demanded for EVERY import mode, also one other than the export's (score_roundtrip_any_import_mode): the pairing is
+  per track and channel of the file, the mode only distributes the notes over parts and voices.
+* scores are also built with `gen_score.build_part`'s `warm` bit mask (read-only views interleaved with the
+  construction, notes re-added after a wrong first placement): the finished part is the same part, so every clause
+  applies unchanged; a memo left behind by an early view and not invalidated shows as a wrong export.
 * a `pad_bar` origin that is not a multiple of a tick (bar length of the first signature not representable in
   any division of the score, e.g. 3/8 with one division per quarter) is outside the generated domain
   (`ticks_integral_pad_partial` states the hypothesis; counter-example in Props/C04.lean).
@@ -51,7 +64,7 @@ import gen_score as G
 PROPERTY = "C04"
 DRIVER = "drv_c04"
 PROPS = ["PartituraModel.Props.C04", "PartituraModel.Props.C04Export", "PartituraModel.Props.C04Sigs",
-         "PartituraModel.Props.C04Cells"]
+         "PartituraModel.Props.C04Cells", "PartituraModel.Props.C04History"]
 TRUSTED = [
     "mido: message (de)serialisation, variable-length delta times, end_of_track appended on save; the file is "
     "written to a buffer and read back with mido.MidiFile before anything is compared",
@@ -64,6 +77,9 @@ TRUSTED = [
     "binary64 quarter_map values of the score are snapped to the rational they stand for (denominator <= 10^6) before "
     "they are compared with the model's exact scoreRows",
     "Python dict insertion order; np.lcm.reduce on int64 (no overflow for the generated divisions)",
+    "a mido.MidiFile object is modelled by its ticks per quarter and the (delta time, message) lists of its tracks "
+    "(Model/MidiObject.lean); that the readers do not write to it is the modelled behaviour (readOp), checked on the "
+    "real object by value after every use; mf.save / mido.MidiFile(file) are the identity on that content",
 ]
 PARTIAL = [
     "ticks_integral_pad_partial / export_ticks_exact_pad_partial / score_roundtrip_pad_partial: pad_bar needs "
@@ -85,6 +101,9 @@ PARTIAL = [
     "measures, ties, tuplets, symbolic durations of the created part are C11's subject",
     "the imported signature / tempo positions (sanitize step, global tracks) are modelled and compared, not proved",
     "Tempo values (bpm -> microseconds per quarter) are C12's conversion; here positions and the written integer",
+    "history_roundtrip_pad_partial / score_roundtrip_any_import_mode_pad_partial: pad_bar under the hypothesis of "
+    "score_roundtrip_pad_partial; for an import mode other than the export's only the notes (and that the import "
+    "returns) are proved, the (part, voice) cells are compared with the model",
 ]
 RULE = ("seeded musical scores: 1-3 parts (optionally in part groups, also nested two and three levels deep, optionally "
         "one without notes), divisions drawn mostly from {3,5,6,7,9,12,24} and changing inside a part at barlines, 1-4 "
@@ -96,7 +115,13 @@ RULE = ("seeded musical scores: 1-3 parts (optionally in part groups, also neste
         "change; pitches chosen so that equal pitches never overlap anywhere in the score but deliberately touch across "
         "voices/parts; each score x 6 modes x 3 anacrusis behaviours x minimum_ppq in {0,96,480} x a velocity; plus "
         "direct calls of get_ppq-rule, map_to_track_channel, assign_group_part_voice/make_track_to_part_mapping and "
-        "duration_tied on random inputs (invalid modes included) and raw MIDI files for the two readers. "
+        "duration_tied on random inputs (invalid modes included) and raw MIDI files for the two readers; a share of the "
+        "scores built with a random `warm` mask per part (views read in the middle of the construction, notes re-added); "
+        "`hist` cases: one export of a score (one configuration) to an in-memory MidiFile (the object returned for "
+        "out=None, or one parsed from the written file), then a history of 2-7 uses of that one object - load_score_midi "
+        "in any of the six modes (not only the export's), load_performance_midi, mf.save + parse, direct iteration - "
+        "each compared with the path-based call (path as str or pathlib.Path) and the object compared by value with "
+        "the written file after every use. "
         "distinct = distinct case description; non-trivial = at least one sounding note written")
 LEVEL_TEXT = ("Lean 4 theorems over all scores: for every list of parts, mode, anacrusis policy, minimum ppq and velocity "
               "for which the model of save_score_midi returns a file, pairing each written track returns exactly the "
@@ -108,7 +133,10 @@ LEVEL_TEXT = ("Lean 4 theorems over all scores: for every list of parts, mode, a
               "tempo_last_wins, pad_bar_offset), the created parts have ppq divisions per quarter (create_part_placement), "
               "every note comes back in the (part, voice) cell of its key and two notes share a cell exactly when the mode "
               "retains their grouping (roundtrip_cells, grouping_recovered), the import of an export returns "
-              "(roundtrip_total); on top of the "
+              "(roundtrip_total), in every import mode (score_roundtrip_any_import_mode, import_total_any_mode), and every "
+              "read in every history of uses of one exported MidiFile object returns what the first read returns and "
+              "leaves the object unchanged (history_roundtrip, history_perf, history_messages, history_saved, "
+              "history_reads_independent, history_object_unchanged); on top of the "
               "per-track theorems (integer ticks, ppq = lcm * 2^k minimal, delta round trip, stable event order, pairing "
               "automaton, six modes). Tied to the code by a differential run of the real save_score_midi / "
               "load_score_midi / load_performance_midi against the executable models AND against the theorems' "
@@ -507,6 +535,31 @@ def gen_score1(rng):
     return {"parts": parts, "struct": struct}
 
 
+def add_warm(rng, sd):
+    """a `warm` mask (gen_score.build_part) for the parts of about a third of the scores: any subset of the cheap
+    stages (bits 0-4 views after a construction step, bit 6 notes re-added after a wrong placement); rarely the
+    "full" views (bit 5: pretty / str / every note-array column, half a second per stage) at one stage"""
+    if rng.random() < 0.35:
+        for pd in sd["parts"]:
+            if rng.random() < 0.8:
+                if rng.random() < 0.06:
+                    pd["warm"] = 32 | (1 << rng.choice([1, 2, 4, 6]))
+                else:
+                    pd["warm"] = rng.randrange(1, 128) & ~32 or 2
+
+
+def gen_ops(rng):
+    """a history of uses of one MidiFile object: ["I", mode] load_score_midi, ["P"] load_performance_midi,
+    ["S"] mf.save and parse, ["M"] iterate the messages; an import is never only the last use"""
+    ops = []
+    for _ in range(rng.randint(2, 6)):
+        r = rng.random()
+        ops.append(["I", rng.choice(MODES)] if r < 0.55 else (["P"] if r < 0.7 else (["S"] if r < 0.85 else ["M"])))
+    if not any(o[0] == "I" for o in ops[:-1]):
+        ops.insert(rng.randrange(len(ops)), ["I", rng.choice(MODES)])
+    return ops
+
+
 def struct_members(item):
     """indices (into sd["parts"]) of the parts below a structure item, depth first"""
     if item[0] == "p":
@@ -551,9 +604,20 @@ def cases(rng, tier):
     # raw MIDI files for the two readers: zero-velocity note ons, re-struck and orphan notes, several channels
     for _ in range(40 if tier == "quick" else 1500):
         yield {"k": "raw", "seed": rng.randrange(2 ** 31), "mode": rng.choice(MODES)}
+    # histories of uses of ONE exported MidiFile object
+    for _ in range(60 if tier == "quick" else (1500 if tier == "thorough" else 800)):
+        r2 = random.Random(rng.randrange(2 ** 62))
+        sd = gen_score(r2)
+        add_warm(r2, sd)
+        yield {"k": "hist", "score": sd,
+               "cfg": [r2.choice(MODES), r2.choice(ANAC), r2.choice(MINPPQ), r2.choice([1, 30, 64, 90, 127])],
+               "src": "object" if r2.random() < 0.75 else "parsed", "path": r2.choice(["str", "pathlib"]),
+               "ops": gen_ops(r2)}
     n = 100 if tier == "quick" else (1500 if tier == "thorough" else 1200)
     for i in range(n):
-        sd = gen_score(random.Random(rng.randrange(2 ** 62)))
+        r2 = random.Random(rng.randrange(2 ** 62))
+        sd = gen_score(r2)
+        add_warm(r2, sd)
         if tier == "quick":
             cfgs = [[m, a, rng.choice(MINPPQ), rng.choice([1, 30, 64, 90, 127])] for m in MODES for a in ANAC]
         else:
@@ -710,6 +774,8 @@ def evaluate(d):
     k = d["k"]
     if k == "score":
         return eval_score(d)
+    if k == "hist":
+        return eval_hist(d)
     ev = Eval()
     if k == "ppq":
         import partitura.score as S
@@ -1039,6 +1105,260 @@ def eval_score(d):
         ev.oracle += oracle(sd, order, cfg, mf, tracks, pnotes, sc2, tag)
     ev.key = None if n_sound == 0 else "score:%s" % hash_desc(d)
     ev.info = {"parts": len(sd["parts"]), "notes": n_sound}
+    return ev
+
+
+def msg_value(m):
+    """a message by value (every attribute, the delta time included)"""
+    return sorted((k, plain(v)) for k, v in m.dict().items())
+
+
+def plain(v):
+    """numbers by value (the exporter's delta times are numpy integers, a parsed file holds Python integers)"""
+    import numbers
+
+    if isinstance(v, (bool, str, type(None))):
+        return v
+    if isinstance(v, numbers.Integral):
+        return int(v)
+    if isinstance(v, numbers.Real):
+        return float(v)
+    if isinstance(v, (list, tuple)):
+        return [plain(x) for x in v]
+    return repr(v)
+
+
+def snapshot(mf):
+    """the content of a MidiFile object by value"""
+    return [mf.type, mf.ticks_per_beat, [[msg_value(m) for m in tr] for tr in mf.tracks]]
+
+
+def content(mf):
+    """the content of a MidiFile without the end_of_track that mido appends when it writes a track"""
+    return [mf.type, mf.ticks_per_beat, [[msg_value(m) for m in tr if m.type != "end_of_track"] for tr in mf.tracks]]
+
+
+def snapshot_diff(a, b):
+    if a[:2] != b[:2]:
+        return "type / ticks per quarter %r -> %r" % (a[:2], b[:2])
+    if len(a[2]) != len(b[2]):
+        return "%d tracks -> %d tracks" % (len(a[2]), len(b[2]))
+    for ti, (x, y) in enumerate(zip(a[2], b[2])):
+        if len(x) != len(y):
+            return "track %d: %d messages -> %d messages" % (ti, len(x), len(y))
+        for mi, (u, v) in enumerate(zip(x, y)):
+            if u != v:
+                return "track %d message %d: %s -> %s" % (ti, mi, dict(u), dict(v))
+    return None
+
+
+def deltas_text(mf):
+    return "%d|%s" % (mf.ticks_per_beat, W.f_list(lambda tr: W.f_list(lambda x: "%d:%s" % (x[1], msg_text(x[2])), tr), file_tracks(mf)))
+
+
+def pair_direct(mf):
+    """the notes of a MidiFile read directly (plain Python): [(track, on tick, off tick, pitch, channel)]"""
+    out = []
+    for ti, tr in enumerate(mf.tracks):
+        t, sounding = 0, {}
+        for m in tr:
+            t += int(m.time)
+            if m.type == "note_on" and m.velocity > 0:
+                sounding[(m.channel, m.note)] = t
+            elif m.type in ("note_on", "note_off") and (m.channel, m.note) in sounding:
+                out.append((ti, sounding.pop((m.channel, m.note)), t, int(m.note), int(m.channel)))
+    return out
+
+
+def perf_rows_text(perf, ntracks):
+    pnotes = [dict(n, track=pp.track) for pp in perf.performedparts for n in pp.notes]
+    return pnotes, W.f_list(lambda i: W.f_list(
+        lambda n: W.f_tuple(*[W.f_int(n[f]) for f in ("note_on_tick", "note_off_tick", "midi_pitch", "channel", "velocity")]),
+        sorted((n for n in pnotes if n["track"] == i),
+               key=lambda n: (n["note_on_tick"], n["midi_pitch"], n["note_off_tick"], n["channel"], n["velocity"]))), range(ntracks))
+
+
+def perf_value(perf):
+    """everything a performance read returns about the notes, for the comparison of two reads of one file"""
+    return [[pp.track, [sorted((k, plain(n[k])) for k in n.keys()) for n in pp.notes]] for pp in perf.performedparts]
+
+
+def any_conflicting_signatures(tracks):
+    """two different time signatures at one tick anywhere in the file: an import mode that merges the tracks into
+    one part hands both to create_part (C11's subject), which may reject them"""
+    at = {}
+    for tr in tracks:
+        for t, _, m in tr:
+            if m.type == "time_signature":
+                if at.setdefault(t, (m.numerator, m.denominator)) != (m.numerator, m.denominator):
+                    return True
+    return False
+
+
+def eval_hist(d):
+    """one export to a MidiFile OBJECT, then a history of uses of that one object"""
+    import os
+    import pathlib
+    import tempfile
+
+    import mido
+    from partitura.io.exportmidi import save_score_midi
+    from partitura.io.importmidi import load_score_midi, load_performance_midi
+
+    ev = Eval()
+    sd = d["score"]
+    _PICKUP.clear()
+    score, parts = build(sd)
+    order = [[i for i, q in enumerate(parts) if q is p][0] for p in score.parts]
+    pds = [sd["parts"][i] for i in order]
+    mode, anac, minppq, vel = d["cfg"]
+    tag = "mode=%d %s min=%d vel=%d %s" % (mode, anac, minppq, vel, d["src"])
+    kw = dict(part_voice_assign_mode=mode, velocity=vel, anacrusis_behavior=anac, minimum_ppq=minppq)
+    n_sound = sum(len(sounding_desc(pd)) for pd in pds)
+    ev.key = None if n_sound == 0 else "hist:%s" % hash_desc(d)
+    ev.info = {"parts": len(pds), "notes": n_sound, "hist_ops": len(d["ops"])}
+    want_ms = Counter()
+    for pd in pds:
+        for (t, dur, pitch, _) in sounding_desc(pd):
+            want_ms[(quarter(pd, t), quarter(pd, t + dur) - quarter(pd, t), pitch)] += 1
+    org = origin_of({"parts": pds}, anac)
+    with tempfile.TemporaryDirectory(prefix="c04h") as tmp:
+        fn = os.path.join(tmp, "x.mid")
+        path = pathlib.Path(fn) if d.get("path") == "pathlib" else fn
+        # ---- the file as it travels by path (the reference) and as an object
+        ret, e = call(save_score_midi, score, path, **kw)
+        if e or not os.path.exists(fn):
+            if n_sound > 0:
+                ev.oracle.append("export raised: [%s] save_score_midi to a path raised %s: %s" % (tag, type(e).__name__, str(e)[:120]))
+            return ev
+        if ret is not None:
+            ev.oracle.append("hist(return): [%s] save_score_midi to a path returned %s, documented None" % (tag, type(ret).__name__))
+        ref = mido.MidiFile(fn)
+        ref_content = content(ref)
+        if d["src"] == "object":
+            mf, e = call(save_score_midi, score, None, **kw)
+            if e or not isinstance(mf, mido.MidiFile):
+                ev.oracle.append("hist(object): [%s] save_score_midi(score, None) %s where the export to a path succeeds"
+                                 % (tag, "raised %s" % type(e).__name__ if e else "returned %s" % type(mf).__name__))
+                return ev
+        else:
+            mf = mido.MidiFile(fn)
+        snap0 = snapshot(mf)
+        if content(mf) != ref_content:
+            ev.oracle.append("hist(object): [%s] the MidiFile returned for out=None differs from the file written to a path: %s"
+                             % (tag, snapshot_diff(ref_content, content(mf))))
+        # the export to a file-like object writes the same file
+        buf = io.BytesIO()
+        call(save_score_midi, score, buf, **kw)
+        with open(fn, "rb") as fh:
+            if buf.getvalue() != fh.read():
+                ev.oracle.append("hist(object): [%s] the export to a file-like object and to a path write different bytes" % tag)
+        tracks0 = file_tracks(mf)
+        ticks0 = int(mf.ticks_per_beat)
+        ttoks = W.lst(lambda tr: W.lst(lambda x: "%d %s" % (x[1], msg_token(x[2])), tr), tracks0)
+        zero_num = any(m.type == "time_signature" and m.numerator == 0 for tr in tracks0 for _, _, m in tr)
+        ntr = len(mf.tracks)
+        model_ops, texts = [], []
+        changed = False
+        ref_cache = {}
+
+        def reference(op):
+            """the same call on the path (a fresh MidiFile is parsed by the reader)"""
+            k = tuple(op)
+            if k not in ref_cache:
+                if op[0] == "I":
+                    ref_cache[k] = call(with_timeout, 60, load_score_midi, path, part_voice_assign_mode=op[1])
+                else:
+                    ref_cache[k] = call(load_performance_midi, path)
+            return ref_cache[k]
+
+        for oi, op in enumerate(d["ops"]):
+            where = "use %d %r of %r" % (oi, op, d["ops"])
+            if op[0] == "I":
+                if zero_num:
+                    continue  # add_measures does not terminate on a 0/x signature (tsc-zero-numerator, judged by the score cases)
+                sc2, e2 = call(with_timeout, 60, load_score_midi, mf, part_voice_assign_mode=op[1])
+                rsc, re_ = reference(op)
+                if e2 or re_:
+                    tolerated = (bool(e2) and bool(re_) and type(e2) is type(re_) and not isinstance(e2, Timeout)
+                                 and (conflicting_signatures(tracks0) if op[1] == mode else any_conflicting_signatures(tracks0)))
+                    if bool(e2) != bool(re_) or (e2 and type(e2) is not type(re_)):
+                        ev.oracle.append("hist(path): [%s] %s: load_score_midi(object) %s, load_score_midi(path) %s" % (
+                            tag, where, "raised %s" % type(e2).__name__ if e2 else "returned", "raised %s" % type(re_).__name__ if re_ else "returned"))
+                    elif not tolerated:
+                        ev.oracle.append("import raised: [%s] %s: load_score_midi raised %s: %s" % (tag, where, type(e2).__name__, str(e2)[:120]))
+                else:
+                    txt, rtxt = import_text(sc2), import_text(rsc)
+                    model_ops.append("I %d" % op[1])
+                    texts.append(txt)
+                    got = Counter((Fraction(int(n.start.t), ticks0) + org, Fraction(int(n.duration_tied), ticks0), int(n.midi_pitch))
+                                  for p2 in sc2.parts for n in p2.notes_tied)
+                    if got != want_ms:
+                        ev.oracle.append("hist(notes): [%s] %s: load_score_midi(object, mode %d) does not return the score's sounding notes; "
+                                         "missing %s, unexpected %s" % (tag, where, op[1], fmt_ms(list((want_ms - got).items())[:2]),
+                                                                        fmt_ms(list((got - want_ms).items())[:2])))
+                    if txt != rtxt:
+                        ev.oracle.append("hist(path): [%s] %s: load_score_midi of the object and of the path differ (parts, notes, voices, "
+                                         "signatures or tempi)" % (tag, where))
+            elif op[0] == "P":
+                perf, e2 = call(load_performance_midi, mf)
+                rperf, re_ = reference(op)
+                if e2 or re_:
+                    if bool(e2) != bool(re_):
+                        ev.oracle.append("hist(path): [%s] %s: load_performance_midi(object) %s, (path) %s" % (
+                            tag, where, "raised %s" % type(e2).__name__ if e2 else "returned", "raised %s" % type(re_).__name__ if re_ else "returned"))
+                    else:
+                        ev.oracle.append("perf raised: [%s] %s: load_performance_midi raised %s" % (tag, where, type(e2).__name__))
+                else:
+                    pnotes, txt = perf_rows_text(perf, ntr)
+                    model_ops.append("P")
+                    texts.append(txt)
+                    got = Counter((Fraction(int(n["note_on_tick"]), ticks0) + org,
+                                   Fraction(int(n["note_off_tick"]) - int(n["note_on_tick"]), ticks0), int(n["midi_pitch"])) for n in pnotes)
+                    if got != want_ms:
+                        ev.oracle.append("hist(notes): [%s] %s: load_performance_midi(object) does not return the score's sounding notes; "
+                                         "missing %s, unexpected %s" % (tag, where, fmt_ms(list((want_ms - got).items())[:2]),
+                                                                        fmt_ms(list((got - want_ms).items())[:2])))
+                    if perf_value(perf) != perf_value(rperf):
+                        ev.oracle.append("hist(path): [%s] %s: load_performance_midi of the object and of the path differ" % (tag, where))
+            elif op[0] == "S":
+                b2 = io.BytesIO()
+                _, e2 = call(mf.save, file=b2)
+                mf2 = None
+                if not e2:
+                    b2.seek(0)
+                    mf2, e2 = call(mido.MidiFile, file=b2)
+                if e2:
+                    ev.oracle.append("hist(save): [%s] %s: saving the object / parsing what was saved raised %s" % (tag, where, type(e2).__name__))
+                else:
+                    model_ops.append("S")
+                    texts.append(deltas_text(mf2))
+                    if content(mf2) != ref_content:
+                        ev.oracle.append("hist(save): [%s] %s: the object saved now is not the file the export wrote: %s"
+                                         % (tag, where, snapshot_diff(ref_content, content(mf2))))
+            else:
+                model_ops.append("M")
+                texts.append(W.f_list(lambda tr: W.f_list(lambda x: "%d:%s" % (x[0], msg_text(x[2])), tr), file_tracks(mf)))
+                got = Counter((Fraction(a, ticks0) + org, Fraction(b - a, ticks0), p) for (_, a, b, p, _) in pair_direct(mf))
+                if got != want_ms:
+                    ev.oracle.append("hist(notes): [%s] %s: the messages of the object read directly do not hold the score's sounding notes; "
+                                     "missing %s, unexpected %s" % (tag, where, fmt_ms(list((want_ms - got).items())[:2]),
+                                                                    fmt_ms(list((got - want_ms).items())[:2])))
+            if not changed:
+                df = snapshot_diff(snap0, snapshot(mf))
+                if df:
+                    changed = True
+                    ev.oracle.append("hist(object changed): [%s] %s changed the MidiFile object it was given: %s" % (tag, where, df))
+        ev.requests.append("hist %d %s %s" % (ticks0, ttoks, W.lst(lambda o: o, model_ops)))
+        ev.impl.append("#".join(texts + [deltas_text(mf)]))
+    # one line per clause is enough
+    seen, res = set(), []
+    for f in ev.oracle:
+        c = f.split(":")[0]
+        if c not in seen:
+            seen.add(c)
+            res.append(f)
+    ev.oracle = res
     return ev
 
 
@@ -1379,25 +1699,50 @@ def finding_key(d, f):
 def shrink(d):
     import copy
 
+    if d.get("k") == "hist":
+        ops = d["ops"]
+        # fewer uses of the object, then a plain build, then a smaller score
+        if len(ops) > 1:
+            for i in range(len(ops)):
+                yield dict(d, ops=ops[:i] + ops[i + 1:])
+        if any("warm" in pd for pd in d["score"]["parts"]):
+            s2 = copy.deepcopy(d["score"])
+            for pd in s2["parts"]:
+                pd.pop("warm", None)
+            yield dict(d, score=s2)
+        for s2 in shrink_score(d["score"]):
+            yield dict(d, score=s2)
+        return
     if d.get("k") != "score":
         return
     if len(d["configs"]) > 1:
         for c in d["configs"]:
             yield {"k": "score", "score": d["score"], "configs": [c]}
         return
-    sd = d["score"]
+    if any("warm" in pd for pd in d["score"]["parts"]):
+        s2 = copy.deepcopy(d["score"])
+        for pd in s2["parts"]:
+            pd.pop("warm", None)
+        yield {"k": "score", "score": s2, "configs": d["configs"]}
+    for s2 in shrink_score(d["score"]):
+        yield {"k": "score", "score": s2, "configs": d["configs"]}
+
+
+def shrink_score(sd):
+    import copy
+
     # drop a part
     if len(sd["parts"]) > 1:
         for i in range(len(sd["parts"])):
             s2 = copy.deepcopy(sd)
             del s2["parts"][i]
             s2["struct"] = [["p", j] for j in range(len(s2["parts"]))]
-            yield {"k": "score", "score": s2, "configs": d["configs"]}
+            yield s2
     # flatten the structure
     if any(it[0] != "p" for it in sd.get("struct") or []):
         s2 = copy.deepcopy(sd)
         s2["struct"] = [["p", j] for j in range(len(s2["parts"]))]
-        yield {"k": "score", "score": s2, "configs": d["configs"]}
+        yield s2
     for pi, pd in enumerate(sd["parts"]):
         tied = set(n["tie"] for n in pd["notes"] if n.get("tie"))
         for ni, n in enumerate(pd["notes"]):
@@ -1407,16 +1752,17 @@ def shrink(d):
                 continue
             s2 = copy.deepcopy(sd)
             del s2["parts"][pi]["notes"][ni]
-            yield {"k": "score", "score": s2, "configs": d["configs"]}
+            yield s2
         for fld in ("extras", "ks"):
             for xi in range(len(pd.get(fld, []))):
                 s2 = copy.deepcopy(sd)
                 del s2["parts"][pi][fld][xi]
-                yield {"k": "score", "score": s2, "configs": d["configs"]}
+                yield s2
 
 
 def distribution(descs, results):
     sc = [d for d in descs if d.get("k") == "score"]
+    hs = [d for d in descs if d.get("k") == "hist"]
     divs = Counter()
     for d in sc:
         for pd in d["score"]["parts"]:
@@ -1426,6 +1772,12 @@ def distribution(descs, results):
         "by_kind": dict(Counter(d.get("k") for d in descs)),
         "scores": len(sc),
         "configs": sum(len(d["configs"]) for d in sc),
+        "built_warm": sum(1 for d in sc + hs if any(pd.get("warm") for pd in d["score"]["parts"])),
+        "histories": len(hs),
+        "history_uses": dict(sorted(Counter(o[0] for d in hs for o in d["ops"]).items())),
+        "history_import_in_other_mode": sum(1 for d in hs if any(o[0] == "I" and o[1] != d["cfg"][0] for o in d["ops"])),
+        "history_same_import_twice": sum(1 for d in hs if any(c > 1 for c in Counter(tuple(o) for o in d["ops"] if o[0] == "I").values())),
+        "history_source": dict(Counter(d["src"] for d in hs)),
         "parts_per_score": dict(Counter(len(d["score"]["parts"]) for d in sc)),
         "divisions": dict(sorted(divs.items())),
         "with_division_change": sum(1 for d in sc if any(pd.get("qd") for pd in d["score"]["parts"])),
